@@ -22,6 +22,8 @@ pub(crate) use me_code::*;
 pub fn get_message(squitter: &str) -> Option<Vec<u32>> {
     clean_squitter(squitter)
         .filter(|message| matches!(message.len(), 14 | 28))
+        // DF 0-15 are 56-bit frames, DF 16-31 are 112-bit frames
+        .filter(|message| (message[0] & 0b1000 == 0) == (message.len() == 14))
         .filter(|message| reminder(message) == 0)
 }
 
